@@ -82,7 +82,7 @@ func digestHash(id uint64) string {
 var hashToDigest = map[string]uint64{}
 
 func init() {
-	for id := uint64(0); id < 64; id++ {
+	for id := uint64(0); id < 128; id++ {
 		hashToDigest[digestHash(id)] = id
 	}
 }
